@@ -147,13 +147,28 @@ package errutil
 //@   ensures err != nil ==> result != nil
 //@   ensures[C16] err != nil ==> $cap == lvl - 1
 
+// C12: every error-typed operand of the format is attached as a secondary error (its safe details,
+// telemetry keys and stack travel with the result), whatever it looks like
+//@ spec func isErrArg(a any) bool = hasMethod(typeof(a), "Error() string")
+//@ spec func errCnt(args []any, n int) int
+//@ unfold errCnt(args, n) = n <= 0 ? 0 : errCnt(args, n - 1) + (isErrArg(args[n - 1]) ? 1 : 0)
+// (by induction on n; stated as an axiom because the solvers do not do induction)
+//@ axiom errCnt_nonneg: forall args []any, n int :: {errCnt(args, n)} errCnt(args, n) >= 0
+//@ spec func secHas(e error, x error) bool
+//@ unfold secHas(e, x) = e != nil && ((typeis(e, *secondary.withSecondaryError) && e.(*secondary.withSecondaryError).secondaryError == x) || secHas(cause1(e), x))
+
 //@ func WrapWithDepthf
-//@   props C10 C16
+//@   props C10 C16 C12
 //@   ensures err == nil ==> result == nil
 //@   ensures old(err) != nil ==> result != nil
 //@   ensures[C16] old(err) != nil ==> $cap == lvl - 1 - depth
 //@   ensures[C07] old(err) != nil ==> rootOf(result) == rootOf(old(err))
+//@   ensures[C12] old(err) != nil ==> cause1(result) != nil && (forall j int :: 0 <= j && j < len(args) && isErrArg(old(args)[j]) ==> secHas(cause1(result), old(args)[j].(error)) && secHas(result, old(args)[j].(error)))
+//@   loop 1: invariant[C12] len(errRefs) == errCnt(args, $n)
+//@           invariant[C12] forall j int :: 0 <= j && j < $n && isErrArg(args[j]) ==> errCnt(args, j) < len(errRefs) && errRefs[errCnt(args, j)] == args[j].(error)
+//@           invariant[C12] forall j int :: 0 <= j && j < len(errRefs) ==> errRefs[j] != nil
 //@   loop 2: invariant err != nil && rootOf(err) == rootOf(old(err))
+//@           invariant[C12] forall j int :: 0 <= j && j < len(args) && isErrArg(args[j]) && errCnt(args, j) < $n ==> secHas(err, args[j].(error))
 
 //@ func JoinWithDepth
 //@   props C10 C13 C16
